@@ -23,6 +23,7 @@ struct OptCase
     UserSpatialMapCfg smc;
     CostProgram prog;
     bool initByPoints = false;
+    bool exactZeros = false; // data with exact zeros + penalty-style program: judge the gradient AT the initial guess
 };
 
 struct OptRig
@@ -215,6 +216,7 @@ inline OptCase genOptCase(Rng &r, int order, int dim, int N, int combo, int flag
         oc.prog = CostProgram::generate(r, dim, -2);
         if (r.coin(0.8))
         {
+            oc.exactZeros = true;
             oc.ref.bc.setZero(dim);
             if (r.coin())
                 oc.ref.t0 = 0.0;
@@ -234,6 +236,17 @@ inline OptCase genOptCase(Rng &r, int order, int dim, int N, int combo, int flag
     }
     else
         oc.prog = CostProgram::generate(r, dim);
+    if (r.coin(0.3))
+    {
+        // time-window penalty: exactly zero (value and partials) before a deadline inside the trajectory's time span
+        double tot = 0;
+        for (double t : oc.ref.T)
+            tot += t;
+        oc.prog.dl_w = r.uni(0.05, 0.5);
+        oc.prog.dl_t = oc.ref.t0 + r.uni(0.15, 0.9) * tot;
+        oc.prog.usesClass[1] = true;
+        oc.prog.usesTime = true;
+    }
     return oc;
 }
 
